@@ -405,7 +405,7 @@ def pwBody (b : List α) (x : α) : Except Err α :=
 /-- `Reaction.order()` -/
 def order (reac : List (String × Int)) : Int := (reac.map (·.2)).foldl (· + ·) 0
 
-/-- `MassAction.active_conc_prod` (rates.py l.191-195): `result = 1; result *= variables[k] ** v` -/
+/-- `MassAction.active_conc_prod` (rates.py l.191-195): `result = 1; result = result * variables[k] ** v` (not in place) -/
 def concProd (ctx : Ctx α) : List (String × Int) → α → Except Err α
   | [], acc => .ok acc
   | (k, v) :: rest, acc => do
